@@ -16,7 +16,8 @@ Theorem C01_match_and_replace_sound : forall f, prule_sound f -> lrule_sound (ma
 Proof. exact mar_sound. Qed.
 
 (** the proved rules, as they stand in the transcribed UNSORTED_OPTS:
-    reverse;first -> last, reverse;last -> first, rise;first -> FirstMinIndex, fall;first -> FirstMaxIndex,
+    reverse;first -> last, reverse;last -> first, rise;first -> FirstMinIndex, fall;last -> LastMinIndex,
+    fall;first -> FirstMaxIndex, rise;last -> LastMaxIndex (the last two pairs since fix commits 1f3e8d8, 2d75a21),
     deduplicate;length -> CountUnique, TransposeOpt (all three shapes, every count >= 0), PopConst *)
 Theorem C01_proved_rules_sound :
   forall o, In o unsorted_opts -> In (opt_name o) proved -> lrule_sound (snd o).
@@ -57,20 +58,37 @@ Proof. exact reverse_first_is_last. Qed.
 Theorem C01_reverse_last_is_first : forall a, wfb a = true ->
   forall v, p_last None (p_reverse a) = Ok v -> p_first None a = Ok v.
 Proof. exact reverse_last_is_first. Qed.
-Theorem C01_rise_first_is_first_min : forall a u v,
-  p_rise a = Ok u -> p_first None u = Ok v -> p_first_index row_le a = Ok v.
+Theorem C01_rise_first_is_first_min : forall fixed a u v,
+  p_rise a = Ok u -> p_first None u = Ok v -> p_first_index fixed row_le a = Ok v.
 Proof. exact rise_first_is_first_min. Qed.
+(** since fix commits 1f3e8d8 and 2d75a21 the fused index primitives equal the unfused forms,
+    failure on an empty array included, wherever rise / fall is defined *)
+Theorem C01_rise_first_equiv : forall a u, p_rise a = Ok u -> p_first_index true row_le a = p_first None u.
+Proof. exact rise_first_equiv. Qed.
+Theorem C01_rise_last_equiv : forall a u, p_rise a = Ok u -> p_last_index row_le a = p_last None u.
+Proof. exact rise_last_equiv. Qed.
+Theorem C01_fall_last_equiv : forall a u, p_fall a = Ok u -> p_last_index row_ge a = p_last None u.
+Proof. exact fall_last_equiv. Qed.
 Theorem C01_transposeN_compose : forall x y st out, (0 <= x)%Z -> (0 <= y)%Z ->
   (st' <- on_top (fun a => Ok (Nat.iter (Z.to_nat x) p_transpose a)) st ;;
    on_top (fun a => Ok (Nat.iter (Z.to_nat y) p_transpose a)) st') = Ok out ->
   on_top (fun a => Ok (Nat.iter (Z.to_nat (x + y)) p_transpose a)) st = Ok out.
 Proof. exact transposeN_compose. Qed.
 
-(** record of the open finding `first rise []`: the original fails, the fused primitive gives 0 *)
-Theorem C01_first_rise_empty_diverges :
+(** records of repaired defects (models of the code before the fix commits) *)
+Theorem C01_first_rise_empty_refuted_pre :
+  let a := Prims.Arr TNum [0%nat] [] in
+  (u <- p_rise a ;; p_first None u) = Err /\ p_first_index false row_le a = Ok (num 0).
+Proof. exact first_rise_empty_refuted_pre. Qed.
+Theorem C01_first_rise_empty_agrees :
   let st := [Prims.Arr TNum [0%nat] []] in
-  run [nRise; nFirst] st = Err /\ run [nFirstMinIndex] st = Ok [num 0].
-Proof. exact first_rise_empty_diverges. Qed.
+  run [nRise; nFirst] st = Err /\ run [nFirstMinIndex] st = Err.
+Proof. exact first_rise_empty_agrees. Qed.
+Theorem C01_last_rise_sorted_refuted_pre :
+  let a := Prims.Arr TNum [2%nat] [ENum 1; ENum 2] in
+  (u <- p_rise a ;; p_last None u) = Ok (num 1) /\ p_last_max_index_pre true a = Ok (num 0) /\
+  p_last_index row_le a = Ok (num 1).
+Proof. exact last_rise_sorted_refuted_pre. Qed.
 
 (** non-vacuity: four proved rules fire on one run, which succeeds on a 3x2 array before and after *)
 Example C01_nonvacuous :
@@ -94,4 +112,9 @@ Print Assumptions C01_reverse_first_is_last.
 Print Assumptions C01_reverse_last_is_first.
 Print Assumptions C01_rise_first_is_first_min.
 Print Assumptions C01_transposeN_compose.
-Print Assumptions C01_first_rise_empty_diverges.
+Print Assumptions C01_rise_first_equiv.
+Print Assumptions C01_rise_last_equiv.
+Print Assumptions C01_fall_last_equiv.
+Print Assumptions C01_first_rise_empty_refuted_pre.
+Print Assumptions C01_first_rise_empty_agrees.
+Print Assumptions C01_last_rise_sorted_refuted_pre.
